@@ -507,6 +507,7 @@ ob("C06.parse_small", ["C06", "C05"], "chess-movegen", "fen::kani_verif_fen_help
 _GROUND = [("standard", "standard position"), ("kiwipete", "kiwipete, all rights, clocks 10/99"), ("ep_white", "e.p. square d6, White to move"), ("ep_black", "e.p. square d3, Black to move"),
            ("rights_kq", "rights Kq, clocks 100/9999, Black to move"), ("rights_qk", "rights Qk, clocks 9/10"), ("runs", "empty runs 1..7, every black piece kind, clocks 1234/567"), ("check", "side to move in check, pinned piece, right K")]
 _GROUND += [("r%02d" % i, "castling subset %d" % i) for i in (0, 1, 2, 3, 4, 5, 7, 8, 10, 11, 12, 13, 14)]
+_GROUND += [("bare_kings", "bare kings, rank 1 and rank 8 end with an empty run"), ("corners", "kings in the corners, empty run first / last")]
 for _n, _d in _GROUND:
     ob("C05.ground." + _n, ["C05", "C06"] if _n in ("standard", "check", "ep_white") else ["C05"], "chess-movegen", _FN + "c05_ground_" + _n, kind="ground", flags="full", timeout=1500, mem_gb=4,
        functions=["fen::parse_fen", "<Board as Display>::fmt", "<CastleRights as Debug>::fmt", "Board::validate", "Board::update_pin_info"],
@@ -514,6 +515,11 @@ for _n, _d in _GROUND:
 for _off, _what in ((17, "separator after the placement"), (18, "side to move"), (20, "castling field"), (22, "en-passant field"), (24, "half-move clock"), (26, "full-move number")):
     ob("C06.window.%02d" % _off, ["C06"], "chess-movegen", _FN + "c06_w_%02d" % _off, kind="bounded", bound="one arbitrary byte at offset %d (%s) of the 27-byte text 'k7/8/8/8/8/8/8/K7 w - - 0 1'" % (_off, _what), flags="full", timeout=1500, mem_gb=5,
        functions=["fen::parse_fen", "Board::validate"], contract="all 256 values of that byte: parse_fen returns (no panic / overflow / out-of-bounds); an accepted board passes validate()")
+for _n, _d in (("empty", "empty string"), ("one_rank", "'8'"), ("after_rank", "text ends after a complete rank (4 of 8)"), ("seven_ranks", "seven ranks"), ("mid_rank", "text ends inside the last rank"),
+               ("no_turn", "no side to move"), ("no_rights", "no castling field"), ("no_ep", "no e.p. field"), ("no_clocks", "no clocks"), ("one_clock", "only one clock"),
+               ("long_rank", "digit 9"), ("rank_overflow", "rank with 9 files"), ("bad_letter", "letter x"), ("trailing", "trailing space"), ("ep_rank", "e.p. square on the wrong rank for the side to move"), ("five_digits", "five-digit clock")):
+    ob("C06.reject." + _n, ["C06"], "chess-movegen", _FN + "c06_reject_" + _n, kind="ground", flags="full", timeout=1500, mem_gb=4, functions=["fen::parse_fen"],
+       contract="ground totality case (%s): parse_fen returns an error, without panic / overflow / out-of-bounds" % _d)
 ob("C05.constructors", ["C05", "C04"], "chess-movegen", _FN + "c05_constructors", kind="ground", flags="full", timeout=1500, mem_gb=4, functions=["Board::standard", "Board::builder", "BoardBuilder::place", "BoardBuilder::castle_rights", "BoardBuilder::build", "fen::parse_fen"],
    contract="standard(), the builder fed with the standard placement, and parse_fen(standard FEN) are field-for-field identical (position, hash, cached sets)")
 ob("C06.fen_cover", ["C06", "C05"], "chess-movegen", _FN + "c06_fen_cover", kind="cover", flags="full", timeout=1500, mem_gb=5, contract="vacuity guard: accepted text with Black to move and an invalid-turn error are both reachable")
